@@ -49,12 +49,18 @@ def run_C01(tier):
     for p in progs.mu_programs(2, 2): J.append(Job('c-futex', 'mu', p, 3 if q else 6, 0))
     for p in progs.mu_programs(3, 1): J.append(Job('c-futex', 'mu', p, 2 if q else 3, 0))
     for p in progs.mu_programs(4, 1): J.append(Job('c-futex', 'mu', p, 1 if q else 2, 0))
-    J += J_('c-futex', 'cv', [(p, P, E) for (p, P, E) in progs.cv_c04('quick') if q or True][:: (2 if q else 1)])
-    J += J_('c-futex', 'cv', progs.cv_c05('quick')[:: (2 if q else 1)])
-    J += J_('c-futex', 'muwait', progs.mw_c06('quick')[:: (2 if q else 1)])
-    J += J_('c-futex', 'muwait', progs.mw_c05('quick')[:: (2 if q else 1)])
+    J += J_('c-futex', 'cv', progs.cv_c01(tier))
+    step = 3 if q else 1
+    J += J_('c-futex', 'muwait', [(p, min(P, 2) if q else P, E) for (p, P, E) in progs.mw_c06('quick')[::step]])
+    J += J_('c-futex', 'muwait', [(p, min(P, 2) if q else P, E) for (p, P, E) in progs.mw_c05('quick')[::step]])
+    J += J_('c-futex', 'muwait', progs.mw_c04('quick'))
     J += J_('c-futex', 'waitn', [t for t in progs.waitn_c11('quick') if 'v' in t[0].split('|')[0]])
-    return generic('C01', tier, both_sems(J),
+    if q:
+        # the binary-semaphore flavour on every other program of the concurrent families (all of them in thorough)
+        B = [Job('c-binsem', j.family, j.program, j.P, j.E, j.flags) for j in J[::2]]
+    else:
+        B = [Job('c-binsem', j.family, j.program, j.P, j.E, j.flags) for j in J]
+    return generic('C01', tier, J + B,
         'DFS over scheduler / clock choices of the real mu.c, mu_wait.c, cv.c, wait.c; oracle: shadow occupancy (harness level at every acquire/return-from-wait, and at nsync\'s own AnnotateRWLockAcquired points) asserted at every entry')
 
 # ---------------------------------------------------------------- C02
@@ -134,6 +140,8 @@ def run_C03(tier):
 # ---------------------------------------------------------------- C04 .. C11, C13, C14, C16
 def run_C04(tier):
     J = J_('c-futex', 'cv', progs.cv_c04(tier)) + J_('c-binsem', 'cv', progs.cv_c04('quick')[::3])
+    J += J_('c-futex', 'muwait', progs.mw_c04(tier)) + J_('c-binsem', 'muwait', progs.mw_c04('quick')[::2])
+    J += J_('c-futex', 'cv', [(p, 2, 1 if 'd' in p else 0) for p in progs.CV_READER_SIGNAL])
     return generic('C04', tier, J, 'DFS over scheduler and clock choices of the real cv.c / wait.c / sem_wait.c; oracle: accounting of wake-ups by an observer at quiescence (DESIGN.md C04) plus the terminal-state progress rule')
 
 def run_C05(tier):
